@@ -9,8 +9,10 @@ Worker case  {"kind":"w", "maxtasks":int|null, "synfd":int|null (null = no synq)
               "counter": null | {"reads":[int..], "dflt":int},
               "ins":[ev..]}
    ev  = ["shutdown"] | ["timeout"] | ["eintr"] | ["eof"] | ["ioerr"] | ["none"] | ["falsy"]
-       | ["msg", ty, job, i|null, t, beh, syn, mem]
+       | ["msg", ty, job, i|null, t, beh, syn, mem, term(0|1, optional)]
+         term = value of common._should_have_exited[0] while the task runs
    beh = ["ret", v] | ["retu"] | ["raise", e] | ["raiseu", e] | ["base", e]
+       | ["term", code]   (the termination handler runs inside the task: sets the flag, sys.exit(code))
    syn = list of the same receive events, with ["msg", ty] as message
    optional "via_call": true -- run the real Worker.__call__ (workloop, sys.exit, _do_exit) with
    os._exit faked; the "pid" argument is then os.getpid() as in the code
@@ -29,6 +31,7 @@ import json
 import os
 import sys
 
+import billiard.common as bc
 import billiard.pool as bp
 from billiard.reduction import ForkingPickler
 
@@ -139,6 +142,8 @@ class Unpicklable:
 
 
 class WState:
+    task_exc = None      # set by the task just before it raises; cleared by the next harness call
+
     def __init__(self, case):
         self.case = case
         self.log = []
@@ -148,24 +153,34 @@ class WState:
     def make_msg(self, name, ev):
         if name == 'syn':
             return (ev[1], ())
-        _, ty, job, i, t, beh, syn, mem = ev
+        _, ty, job, i, t, beh, syn, mem = ev[:8]
+        term = bool(ev[8]) if len(ev) > 8 else False
         self.cur_job = dict(job=job, i=i, t=t, beh=beh, syn=syn, mem=mem)
         self.synq_conn.load(syn)
         st = self
 
         def fun():
             st.log.append(['run', job, i])
+            bc._should_have_exited[0] = term
             k = beh[0]
             if k == 'ret':
                 return beh[1]
             if k == 'retu':
                 return Unpicklable()
             if k == 'raise':
+                st.task_exc = ['taskexc', 0, beh[1]]
                 raise EXC[beh[1]]('scripted')
             if k == 'raiseu':
+                st.task_exc = ['taskexc', 0, beh[1]]
                 raise EXC[beh[1]](Unpicklable())
             if k == 'base':
+                st.task_exc = ['taskexc', 1, beh[1]]
                 raise BASE[beh[1]]('scripted')
+            if k == 'term':
+                # what common._shutdown_cleanup does on the termination signal
+                bc._should_have_exited[0] = True
+                st.task_exc = ['terminated', beh[1]]
+                sys.exit(beh[1])
             raise AssertionError(k)
         return (ty, (job, i, fun, (), {}))
 
@@ -204,6 +219,8 @@ def run_worker(case):
         def put(obj):
             if getattr(st, 'exited', False):
                 return                    # a real os._exit() never returns
+            if obj[0] != bp.DEATH:
+                st.task_exc = None        # the task's exception was handled by the loop
             ty, args = obj
             if ty == bp.DEATH and len(args) == 2:
                 st.log.append(['death', args[0], args[1]])
@@ -235,6 +252,7 @@ def run_worker(case):
 
         def wait_for_job(*a, **k):
             st.active = inq
+            st.task_exc = None
             st.log.append(['inq'])
             return real_job(*a, **k)
         w.wait_for_job = wait_for_job
@@ -279,6 +297,17 @@ def run_worker(case):
     class Exited(BaseException):
         pass
 
+    def classify(exc):
+        if st.task_exc is not None:      # raised by the task and not handled by the loop
+            return list(st.task_exc) + ([0] if len(st.task_exc) == 2 else [])
+        if isinstance(exc, SystemExit):
+            return ['sysexit', exc.code if isinstance(exc.code, int) else -1]
+        if isinstance(exc, AssertionError):
+            return ['assert', 0]
+        if isinstance(exc, Starved):
+            return ['starved', 0]
+        return ['exc', type(exc).__name__]
+
     def fake_os_exit(code):
         if call['osexit'] is None:
             call['osexit'] = code
@@ -301,14 +330,8 @@ def run_worker(case):
             try:
                 code = w.workloop(debug=lambda *a, **k: None, now=now, pid=case['pid'])
                 ex = ['ret', code]
-            except SystemExit as exc:
-                ex = ['sysexit', exc.code if isinstance(exc.code, int) else -1]
-            except AssertionError:
-                ex = ['assert', 0]
-            except Starved:
-                ex = ['starved', 0]
             except BaseException as exc:
-                ex = ['exc', type(exc).__name__]
+                ex = classify(exc)
         else:
             # the real Worker.__call__: workloop -> sys.exit -> _do_exit -> DEATH message -> os._exit
             real_workloop = w.workloop
@@ -320,17 +343,8 @@ def run_worker(case):
                     code = real_workloop(debug=lambda *a, **k: None, now=now, pid=pid)
                     box['ex'] = ['ret', code]
                     return code
-                except SystemExit as exc:
-                    box['ex'] = ['sysexit', exc.code if isinstance(exc.code, int) else -1]
-                    raise
-                except AssertionError:
-                    box['ex'] = ['assert', 0]
-                    raise
-                except Starved:
-                    box['ex'] = ['starved', 0]
-                    raise
                 except BaseException as exc:
-                    box['ex'] = ['exc', type(exc).__name__]
+                    box['ex'] = classify(exc)
                     raise
             w.workloop = workloop
             w.after_fork = lambda: None       # would close fds and reset signal handlers
@@ -347,6 +361,7 @@ def run_worker(case):
     finally:
         bp.time, bp.mem_rss, os.getpid = real_time, real_mem, real_getpid
         bp.error, bp.warning, os._exit, sys.exit = real_error, real_warning, real_os_exit, real_sys_exit
+        bc._should_have_exited[0] = False
     if via_call:
         # the DEATH message and the one-second sleep of _do_exit come after the finally clause
         tail = []
